@@ -149,7 +149,9 @@ theorem removeLoop_spec (p : Binding → Bool) (l : List Binding) :
             have := i2.length_le
             simp; omega
       · obtain ⟨i1, i2, i3, i4⟩ := ih rest (by simp at hl; omega)
-        simp only [removeLoop, hb]
+        have hdef : removeLoop p (b :: rest) = (b :: (removeLoop p rest).1, (removeLoop p rest).2) := by
+          rw [removeLoop.eq_def]; simp [hb]
+        rw [hdef]
         refine ⟨?_, i2.cons₂ b, ?_, ?_⟩
         · simp only [Bool.false_eq_true, if_false, List.mem_cons, exists_eq_or_imp]
           rw [i1]; simp [hb]
